@@ -8,8 +8,8 @@
    witness and an open known finding: a name with an encoded "/" can be issued with a URI that no
    reader can parse back (never one that reads as a different identity: C12_no_confusion); DNS/IP
    SANs are copied unchecked (a service token gets the servers' DNS name); agent identities in a
-   partition and URIs with query/fragment/userinfo are issued verbatim; the auto-config entry point
-   has no datacenter test.
+   partition are issued verbatim.  Repaired since the audit: bf079b3 (datacenter test on the
+   auto-config path), 3ebfd83 (URIs with userinfo/query/fragment refused).
    "Chains to the currently active root" is not a theorem: X.509 is outside the model; the direct
    oracle checks crypto/x509 verification against the store's active root on every issued leaf. *)
 From Verif Require Import Base.Prelude.
@@ -97,36 +97,31 @@ Theorem C12_agent_partition_refuted :
     parse_cert_uri u = Ok (IdAgent host ap dc agent) /\ ap <> "default".
 Proof. exact agent_partition_refuted. Qed.
 
-(* A URI with a query, fragment or userinfo is not a SPIFFE ID, yet it is accepted and issued
-   verbatim: the decoration survives into the certificate (open finding decorated-uri). *)
-Theorem C12_decorated_uri_refuted :
-  exists e az c s crt s' u,
-    sign_request e az c s = Ok (crt, s') /\ csr_uris c = [u] /\ c_uris crt = [u] /\ u_plain u = false /\
-    u_plain (reparse u) = false.
-Proof. exact decorated_uri_refuted. Qed.
+(* A URI with userinfo, a query or a fragment is not a SPIFFE ID: no certificate is issued for
+   one, and the URI that goes into the certificate carries none (3ebfd83; [is_duser] marks exactly
+   userinfo / query / fragment - the omit-host form of an agent URI is re-printed, see the
+   regression example). *)
+Theorem C12_no_decorated_uri : forall e az c s crt s',
+  sign_request e az c s = Ok (crt, s') ->
+  exists u u', csr_uris c = [u] /\ is_duser (u_deco u) = false /\
+               c_uris crt = [u'] /\ is_duser (u_deco u') = false.
+Proof. exact no_decorated_uri. Qed.
 
 (* ---- the second entry point: AutoConfig.InitialConfiguration -> CAManager.SignCertificate ---- *)
 
-(* _partial: what holds on that path - one URI, no e-mail, an agent identity for exactly the node
-   the JWT authorized, a certificate URI in the trust domain (the requested one or the re-printed
-   identity), not a CA, next serial.  There is NO datacenter clause ... *)
-Theorem C12_autoconfig_sound_partial : forall e node c s crt s',
+(* Full strength: one undecorated URI, no e-mail, an agent identity OF THIS DATACENTER (bf079b3) for
+   exactly the node the JWT authorized, a certificate URI in the trust domain (the requested one or
+   the re-printed identity), not a CA, next serial. *)
+Theorem C12_autoconfig_sound : forall e node c s crt s',
   autoconfig_sign e node c s = Ok (crt, s') ->
-  exists u host ap dc,
-    csr_uris c = [u] /\ csr_emails c = 0 /\ parse_cert_uri u = Ok (IdAgent host ap dc node) /\
-    c_uris crt = [agent_cert_uri e u (IdAgent host ap dc node)] /\
+  exists u host ap,
+    csr_uris c = [u] /\ csr_emails c = 0 /\ is_duser (u_deco u) = false /\
+    parse_cert_uri u = Ok (IdAgent host ap (e_dc e) node) /\
+    c_uris crt = [agent_cert_uri e u (IdAgent host ap (e_dc e) node)] /\
     (exists u', c_uris crt = [u'] /\ lower (u_host u') = trust_domain e /\
-                (u' = u \/ u' = uri_of (IdAgent (trust_domain e) ap dc node))) /\
+                (u' = u \/ u' = uri_of (IdAgent (trust_domain e) ap (e_dc e) node))) /\
     c_is_ca crt = false /\ c_serial crt = next_serial s /\ s' = incr_serial s.
 Proof. exact autoconfig_sound. Qed.
-
-(* ... because the code has no datacenter test there: a server of dc1 issues the agent identity
-   of dc2 (open finding foreign-datacenter-agent, entry autoconf; repair drafted under fixes/). *)
-Theorem C12_autoconfig_datacenter_refuted :
-  exists e node c s crt s' u host ap dc,
-    autoconfig_sign e node c s = Ok (crt, s') /\ csr_uris c = [u] /\
-    parse_cert_uri u = Ok (IdAgent host ap dc node) /\ c_uris crt = [u] /\ dc <> e_dc e.
-Proof. exact autoconfig_datacenter_refuted. Qed.
 
 (* ------------------------------------------------------------------ identities and their spelling *)
 
@@ -266,6 +261,20 @@ Example C12_agent_example :
   sign_request w_env w_az (w_csr w_agent_dc2) empty_store = Err EDatacenter.
 Proof. exact agent_example. Qed.
 
+(* regressions for the two repaired clauses: the dc2 agent identity is refused on the auto-config
+   path; decorated URIs are refused through both entry points *)
+Example C12_autoconfig_datacenter_regression :
+  parse_cert_uri w_agent_dc2 = Ok (IdAgent w_td "default" "dc2" "n1") /\
+  autoconfig_sign w_env "n1" (w_csr w_agent_dc2) empty_store = Err EDatacenter.
+Proof. exact autoconfig_datacenter_refused. Qed.
+
+Example C12_decorated_uri_regression :
+  sign_request w_env w_az (w_csr w_web_query) empty_store = Err EDecorated /\
+  autoconfig_sign w_env "n1" (w_csr w_agent_query) empty_store = Err EDecorated /\
+  sign_request w_env w_az (w_csr w_agent_omithost) empty_store =
+    Ok (Cert [w_agent_td] [] [] false 1, incr_serial empty_store).
+Proof. exact decorated_uri_refused. Qed.
+
 (* the auto-config path: issued for the authorized node, refused for another node or a non-agent *)
 Example C12_autoconfig_example :
   autoconfig_sign w_env "n1" (w_csr w_agent_dummy) empty_store =
@@ -308,9 +317,10 @@ Print Assumptions C12_trust_domain_stable.
 Print Assumptions C12_sans_copied.
 Print Assumptions C12_server_dns_san_refuted.
 Print Assumptions C12_agent_partition_refuted.
-Print Assumptions C12_decorated_uri_refuted.
-Print Assumptions C12_autoconfig_sound_partial.
-Print Assumptions C12_autoconfig_datacenter_refuted.
+Print Assumptions C12_no_decorated_uri.
+Print Assumptions C12_autoconfig_sound.
+Print Assumptions C12_autoconfig_datacenter_regression.
+Print Assumptions C12_decorated_uri_regression.
 Print Assumptions C12_url_wfb_sound.
 Print Assumptions C12_autoconfig_example.
 Print Assumptions C12_config_cas_example.
